@@ -22,6 +22,7 @@ META = {
 START = '''#%yanny
 # start
 a 1
+MJD 54579
 
 typedef struct {
     int id;
@@ -42,10 +43,13 @@ OPS = ['write-new', 'append-rows-upper', 'append-rows-lower-rec', 'append-pairs'
        'append-other']
 
 
+CASEKEYS = {1: 'mjd', 2: 'Mjd', 3: 'mJD'}
+
+
 class Model(object):
     def __init__(self):
         self.tables = {'TAB': {'id': [1, 2], 'name': ['one', 't w']}, 'OTHER': {'n': [7], 'tags': [['x', 'y']]}}
-        self.pairs = [('a', '1')]
+        self.pairs = [('a', '1'), ('MJD', '54579')]
         self.path = '/d/a.par'
 
 
@@ -117,8 +121,10 @@ def ob_history(nsteps, raw, first=None, nchar=2):
                     hv = sym_chars(ctx, 'h%d' % step, 1, exclude='#')
                     ctx.add(z3.And(hv[0] != 32, hv[0] != 9, hv[0] != 92))
                     val = S('v', hv)
-                    par.append({'key%d' % step: val})
+                    # a new key, and a second one that differs from an existing pair only by letter case
+                    par.append({'key%d' % step: val, CASEKEYS[step]: 'w%d' % step})
                     model.pairs.append(('key%d' % step, val))
+                    model.pairs.append((CASEKEYS[step], 'w%d' % step))
                 elif op == 'append-empty':
                     with warnings.catch_warnings(record=True) as w:
                         warnings.simplefilter('always')
@@ -248,8 +254,9 @@ def replay(rec):
                 model.tables['OTHER']['tags'] += [['p', 'q']]
             elif op == 'append-pairs':
                 val = 'v' + chr(int(inp.get('h%d_0' % step, 65)))
-                par.append({'key%d' % step: val})
+                par.append({'key%d' % step: val, CASEKEYS[step]: 'w%d' % step})
                 model.pairs.append(('key%d' % step, val))
+                model.pairs.append((CASEKEYS[step], 'w%d' % step))
             elif op == 'append-empty':
                 with warnings.catch_warnings(record=True) as w:
                     warnings.simplefilter('always')
